@@ -19,7 +19,8 @@ ShapesQuick == {
   S("DRI", "opaque", 2, "-", 0),
   S("DRI", "ff", 2, "-", 0),                \* restart interval containing 0xFF bytes
   S("APP1", "exif", 6006, "LE", 8),         \* payload larger than the scanner's 4 KiB buffer
-  S("SOF0", "opaque", 15, "-", 0) }
+  S("SOF0", "opaque", 15, "-", 0),
+  S("COM", "opaque", 65533, "-", 0) }       \* longest possible segment: length field 0xFFFF
 
 ShapesThorough == ShapesQuick \cup {
   S("APP1", "exif", 6 + 8 + 6, "BE", 8),     \* smallest Exif payload: header + empty IFD
@@ -27,5 +28,7 @@ ShapesThorough == ShapesQuick \cup {
   S("APP1", "nearxmp", 60, "-", 0),
   S("APP14", "nested", 66, "-", 0),
   S("SOF2", "opaque", 11, "-", 0),
-  S("DHT", "ff", 40, "-", 0) }
+  S("DHT", "ff", 40, "-", 0),
+  S("APP2", "opaque", 65532, "-", 0),        \* length field 0xFFFE
+  S("APP1", "xmp", 65533, "-", 0) }          \* longest possible XMP packet
 =============================================================================
